@@ -21,8 +21,9 @@ import SradModel.Drv.Cmd
 import SradModel.Drv.Loop
 import SradModel.Drv.Wire
 import SradModel.Drv.HostCmd
+import SradModel.Drv.SimpleMgr
 
-open Srad Srad.Drv Srad.BirthDrv Srad.Drv.CmdD Srad.Drv.HostCmdD
+open Srad Srad.Drv Srad.BirthDrv Srad.Drv.CmdD Srad.Drv.HostCmdD Srad.Drv.SimpleMgrD
 
 structure DState where
   reseq : Reseq.St Nat := Reseq.init
@@ -38,6 +39,7 @@ structure DState where
   cmd : CmdSt := {}
   nodeabs : NodeAbsD := {}
   hcmd : HcmdSt := {}
+  smgr : SmgrD := {}
 
 def step (st : DState) (line : String) : DState × String :=
   match words line with
@@ -61,6 +63,9 @@ def step (st : DState) (line : String) : DState × String :=
   | "hcmd" :: rest =>
     let (c, o) := stepHcmd st.hcmd rest
     ({ st with hcmd := c }, o)
+  | "smgr" :: rest =>
+    let (c, o) := stepSmgr st.smgr rest
+    ({ st with smgr := c }, o)
   | "nodeabs" :: rest =>
     let (n, o) := stepNodeAbs st.nodeabs rest
     ({ st with nodeabs := n }, o)
